@@ -5,8 +5,8 @@ from mc.canon import canon, fromjson, short, tojson
 
 ID = 'C04'
 LEVEL = 'model_checking'
-RULE = ('Union of the C01 (method product), C02 (header) and C03 (field '
-        'value) spaces plus bodies, heartbeat and protocol headers; every '
+RULE = ('Union of the C01 (method product + dense interior sweeps), C02 '
+        '(header) and C03 (field value) spaces plus bodies, heartbeat and protocol headers; every '
         'output of frame.marshal, Frame.marshal(), Basic.Properties.marshal()'
         ' and encode.field_table/field_array/encode_table_value is compared '
         'byte for byte with mc.refcodec (written from the grammar, imports '
@@ -23,7 +23,8 @@ def tasks(tier, seed):
     return ([('m',) + t for t in corpus.method_tasks(tier)] +
             [('h',) + tuple(t) for t in corpus.header_tasks(tier)] +
             [('v',) + tuple(t) for t in values.value_tasks(tier)] +
-            [('misc',)])
+            [('misc',)] +
+            [('dense',) + t for t in corpus.dense_tasks(tier)])
 
 
 def first_diff(a, b, fields):
@@ -178,7 +179,14 @@ def check_misc(ctx):
 
 def run(task, ctx):
     kind = task[0]
-    if kind == 'm':
+    if kind == 'dense':
+        for m, vec, ch in corpus.dense_cases(task[1:], ctx.tier):
+            ctx.case(('m', m.name, canon(list(vec)), ch), True,
+                     sample=lambda: {'method': m.name,
+                                     'vec': short(list(vec), 120),
+                                     'channel': ch, 'dense': task[1]})
+            check_method(ctx, m, vec, ch)
+    elif kind == 'm':
         for m, vec, ch, _i in corpus.method_cases(task[1:], ctx.tier,
                                                   ctx.seed):
             ctx.case(('m', m.name, canon(list(vec)), ch),
